@@ -45,6 +45,7 @@ from typing import Any, Callable, Iterable
 from engine.api import HarnessModelError
 
 MARK = "__coop_gen__"
+_DEBUG = False
 
 # ---------------------------------------------------------------------------
 # scheduler + cooperative primitives
@@ -70,7 +71,12 @@ class Deadlock(Exception):
 class Scheduler:
     """Deterministic scheduler over generator 'threads'."""
 
-    def __init__(self, max_steps: int = 600) -> None:
+    def __init__(self, max_steps: int = 600, untraced: bool = False) -> None:
+        # untraced=True: thread bodies run with CrossHair tracing suspended (native speed).  Only
+        # valid when no symbolic value reaches the thread bodies, i.e. when the harness has
+        # branched every symbolic argument to a concrete value and only the *schedule* (start
+        # thread, preemption points — compared here, under tracing) stays symbolic.
+        self.untraced = untraced
         self.threads: list[_Thread] = []
         self.current: int = 0
         self.steps = 0
@@ -113,16 +119,19 @@ class Scheduler:
                 return j
         return -1
 
-    def run(self, first: int, preemptions: Iterable[tuple[int, int]] = ()) -> None:
+    def run(self, first: int, preemptions: Iterable[tuple[int, int]] = (), p_max: int = 120) -> None:
         """Run all threads to completion.
 
         ``first``: index of the thread that starts.  ``preemptions``: ``(step, thread)`` pairs;
         when the global count of executed statements equals ``step`` the scheduler switches to
         ``thread`` if it is runnable (otherwise the point is void).  Both may be symbolic ints.
         """
-        pre = list(preemptions)
-        STATS["runs"] += 1
         n = len(self.threads)
+        # Fix the schedule with O(log) symbolic decisions (binary search on each symbolic int)
+        # instead of one symbolic comparison per executed statement: same set of schedules, far
+        # fewer solver calls per path.
+        pre = [(self._concretize(p, 0, p_max + 1), self._concretize(t, 0, max(n - 1, 0))) for p, t in preemptions]
+        STATS["runs"] += 1
         cur = self._concrete_index(first, n)
         if not self._runnable(self.threads[cur]):
             cur = self._next_runnable(cur)
@@ -136,7 +145,7 @@ class Scheduler:
                 last_marked = cur
             # advance one statement
             try:
-                ev = next(t.gen)
+                ev = self._step(t)
             except StopIteration as stop:
                 t.done = True
                 t.result = stop.value
@@ -183,6 +192,30 @@ class Scheduler:
                 continue
         if any(not t.done for t in self.threads):
             self.deadlocked = True
+
+    def _step(self, t: _Thread):  # type: ignore[no-untyped-def]
+        if self.untraced:
+            try:
+                from crosshair.tracers import NoTracing, is_tracing
+            except ImportError:  # pragma: no cover
+                return next(t.gen)
+            if is_tracing():
+                with NoTracing():
+                    return next(t.gen)
+        return next(t.gen)
+
+    @staticmethod
+    def _concretize(v: int, lo: int, hi: int) -> int:
+        """Concrete value of a (possibly symbolic) int clamped to [lo, hi], by binary search."""
+        if not hasattr(v, "__ch_realize__"):  # concrete (type() lies about CrossHair proxies)
+            return min(max(v, lo), hi)
+        while lo < hi:
+            mid = (lo + hi) // 2
+            if v <= mid:
+                hi = mid
+            else:
+                lo = mid + 1
+        return lo
 
     @staticmethod
     def _concrete_index(v: int, n: int) -> int:
@@ -415,6 +448,60 @@ class CoopTimer(CoopThread):
 
     def cancel(self) -> None:
         self._cancelled = True
+
+
+_NO_DEFAULT = object()
+
+
+class CoopContextVar:
+    """contextvars.ContextVar shim: one value per cooperative thread (real threads each have
+    their own context; all cooperative threads share one OS thread)."""
+
+    def __init__(self, name: str, *, default: Any = _NO_DEFAULT) -> None:
+        self.name = name
+        self.default = default
+        self.values: dict[int, Any] = {}
+
+    def _tid(self) -> int:
+        return _ACTIVE[-1].current if _ACTIVE else -1
+
+    def get(self, *d: Any) -> Any:
+        t = self._tid()
+        if t in self.values:
+            return self.values[t]
+        if d:
+            return d[0]
+        if self.default is not _NO_DEFAULT:
+            return self.default
+        raise LookupError(self.name)
+
+    def set(self, v: Any) -> tuple:
+        t = self._tid()
+        tok = (self, t, self.values.get(t, _NO_DEFAULT), [False])
+        self.values[t] = v
+        return tok
+
+    def reset(self, tok: tuple) -> None:
+        var, t, old, used = tok
+        if var is not self:
+            raise ValueError("token was created by a different ContextVar")
+        if used[0]:
+            raise RuntimeError("token has already been used once")
+        used[0] = True
+        if old is _NO_DEFAULT:
+            self.values.pop(t, None)
+        else:
+            self.values[t] = old
+
+
+def harness_point(tag: int = 0) -> int:
+    """A statement the harness places *between* repository calls (e.g. "dispatch in progress").
+    Cooperative threads yield ``HP`` there; real-thread bodies call this function, whose single
+    line is recognised by the replay tracer."""
+    return tag
+
+
+HP = ("pt", harness_point.__code__.co_filename, harness_point.__code__.co_firstlineno + 4)
 
 
 class _ThreadingShim(types.ModuleType):
@@ -729,7 +816,7 @@ def replay_real(unit: "Unit", thread_bodies: list[Callable[[], Any]], trace: lis
     threads did not follow the recorded statements — the caller must treat that as *not reproduced*.
     """
     codes: dict[types.CodeType, dict[int, tuple[str, int, int]]] = {}
-    for raw in unit.functions:
+    for raw in [*unit.functions, harness_point]:
         tab = _stmt_table(raw)
         for co in _code_objects(raw.__code__):
             codes[co] = tab
@@ -833,6 +920,8 @@ def replay_real(unit: "Unit", thread_bodies: list[Callable[[], Any]], trace: lis
             if event != "line":
                 return local
             info = tab.get(frame.f_lineno)
+            if _DEBUG:
+                print("EV", idx, frame.f_code.co_name, frame.f_lineno, info, cur_stmt.get(fid), file=sys.stderr)
             if info is None:
                 return local  # a line outside every statement header (except/else/finally clause lines)
             start, kind, header_end, end = info
